@@ -394,30 +394,33 @@ pub fn decode_all(data: &[u8]) -> Option<Vec<u8>> {
     }
 }
 
-/// Streaming decode of a *prefix*: returns (bytes produced, result) where result is
-/// 1 success, 2 needs-more-input, 0 failure.
-pub fn decode_prefix(data: &[u8]) -> (Vec<u8>, u8) {
+/// Streaming decode of a *prefix* into one output buffer of `cap` bytes (large enough for
+/// everything the prefix can produce, so the decoder is never asked to resume after
+/// needs-more-output): returns (bytes produced, result) where result is
+/// 1 success, 2 needs-more-input, 3 needs-more-output, 0 failure.
+pub fn decode_prefix_cap(data: &[u8], cap: usize) -> (Vec<u8>, u8) {
     use brotli_decompressor::{BrotliDecompressStream, BrotliResult, BrotliState};
     let mut st = BrotliState::new(
         brotli::enc::StandardAlloc::default(),
         brotli::enc::StandardAlloc::default(),
         brotli::enc::StandardAlloc::default(),
     );
-    let mut out = Vec::new();
-    let mut buf = vec![0u8; 1 << 16];
+    let mut buf = vec![0u8; cap];
     let mut avail_in = data.len();
     let mut in_off = 0usize;
     let mut total = 0usize;
-    loop {
-        let mut avail_out = buf.len();
-        let mut out_off = 0usize;
-        let r = BrotliDecompressStream(&mut avail_in, &mut in_off, data, &mut avail_out, &mut out_off, &mut buf, &mut total, &mut st);
-        out.extend_from_slice(&buf[..out_off]);
-        match r {
-            BrotliResult::NeedsMoreOutput => continue,
-            BrotliResult::ResultSuccess => return (out, 1),
-            BrotliResult::NeedsMoreInput => return (out, 2),
-            BrotliResult::ResultFailure => return (out, 0),
-        }
-    }
+    let mut avail_out = buf.len();
+    let mut out_off = 0usize;
+    let r = BrotliDecompressStream(&mut avail_in, &mut in_off, data, &mut avail_out, &mut out_off, &mut buf, &mut total, &mut st);
+    buf.truncate(out_off);
+    let code = match r {
+        BrotliResult::ResultSuccess => 1,
+        BrotliResult::NeedsMoreInput => 2,
+        BrotliResult::NeedsMoreOutput => 3,
+        BrotliResult::ResultFailure => 0,
+    };
+    (buf, code)
+}
+pub fn decode_prefix(data: &[u8]) -> (Vec<u8>, u8) {
+    decode_prefix_cap(data, 64 * data.len() + (1 << 20))
 }
